@@ -109,6 +109,7 @@ class World:
         self.tag = ""
         self.has_truth = True   # every document in docs is one of gts (so entry ids can be computed)
         self.sparse = {}        # relative path tuple -> size: files created with truncate() only (no data blocks)
+        self.symlinks = {}      # relative path tuple -> relative target path tuple (symbolic link to a regular file)
 
     def add_file(self, path, content, group=None):
         """returns False (and does nothing) when the path collides with an existing file or directory"""
@@ -163,7 +164,16 @@ def gen_world(rng, ntorrents=None, features=()):
             tgt = tuple(g.target(w.export, f))
             if k == 0:
                 w.add_file(tgt, f.content)
-                if rng.chance(1, 3):
+                if rng.chance(1, 8):
+                    # the complete export image is a symbolic link to the real file kept elsewhere (outside the
+                    # scan directories): opened through its path it is the export image like any other
+                    real = (b"bystander", b"real_%d_%d" % (w.gts.index(g), fi))
+                    del w.files[tgt]
+                    w.add_file(real, f.content)
+                    w.symlinks[tgt] = real
+                    for k in range(1, len(tgt)):
+                        w.dirs.add(tgt[:k])
+                elif rng.chance(1, 3):
                     # a complete export image that is also reachable under another name (hard link) in a scan
                     # directory: the run must recognise it as the export image itself and leave it alone
                     group[0] += 1
@@ -242,6 +252,10 @@ def materialise(w, base):
                 f.write(content)
             if grp is not None:
                 groups[grp] = fp
+    for p, tgt in sorted(w.symlinks.items()):
+        fp = path_bytes(root, p)
+        os.makedirs(os.path.dirname(fp), exist_ok=True)
+        os.symlink(path_bytes(root, tgt), fp)
     for p, size in sorted(w.sparse.items()):
         fp = path_bytes(root, p)
         os.makedirs(os.path.dirname(fp), exist_ok=True)
@@ -270,6 +284,13 @@ def snapshot(root):
         for f in fn:
             fp = os.path.join(dp, f)
             st = os.lstat(fp)
+            if os.path.islink(fp):
+                # a symbolic link to a regular file is, for a tool that opens paths, one more name of that file:
+                # it is presented (to the model too) under the inode and content of its target
+                try:
+                    st = os.stat(fp)
+                except OSError:
+                    continue
             if st.st_size > (1 << 26):
                 files[comps + (f,)] = (b"<sparse %d>" % st.st_size, st.st_ino)     # never read: it has no data blocks
                 continue
